@@ -171,6 +171,16 @@ def check_property_file(pid):
     return res
 
 
+def coqchk_gate(pid):
+    """thorough tier: the independent checker re-checks the property library and everything it depends on, and lists axioms"""
+    rc, out = sh(['coqchk', '-silent', '-o', '-Q', '.', 'BB', 'BB.Properties.' + pid], cwd=COQ, timeout=3000)
+    m = re.search(r'\* Axioms:\s*(.*?)\n\s*\n', out, re.S)
+    axioms = m.group(1).strip() if m else '?'
+    ok = rc == 0 and axioms == '<none>' and all(('%s: <none>' % k) in out.replace('\n', ' ') or re.search(re.escape(k) + r':\s*<none>', out)
+                                                for k in ('relying on type-in-type', 'relying on unsafe (co)fixpoints', 'whose positivity is assumed'))
+    return ok, axioms, out[-1500:]
+
+
 def grep_gate():
     """No Admitted/Axiom/... anywhere in the development."""
     bad = []
@@ -265,6 +275,11 @@ def run_check(pid, tier, seed, mod):
         for e in prop['errors']:
             ctx.broken.append({'obligation': 'theorems:' + pid, 'detail': e, 'log': prop.get('log', '')[-3000:],
                                'files': prop.get('failed_files')})
+        if tier == 'thorough' and not prop['errors']:
+            okc, axioms, clog = coqchk_gate(pid)
+            ctx.notes.append('coqchk -o BB.Properties.%s: axioms %s' % (pid, axioms))
+            if not okc:
+                ctx.broken.append({'obligation': 'coqchk:' + pid, 'detail': clog})
         ok, log = build_model()
         if not ok:
             ctx.broken.append({'obligation': 'model-build', 'detail': log[-3000:]})
